@@ -833,7 +833,17 @@ func init() {
 	register("c.incr", incdec("incr"))
 	register("c.decr", incdec("decr"))
 	// lock <path> <i> <dmap> <keyhex> <timeout_ms> <deadline_ms> -> token hex | notacquired
-	register("c.lock", clusterOp(func(m *member, path, name string, a []string) string {
+	var doLock func(m *member, path, name string, a []string) string
+	// a Lock that fails with lock-not-acquired must have waited for its whole deadline (real time)
+	doLockTimed := func(m *member, path, name string, a []string) string {
+		t0 := time.Now()
+		r := doLock(m, path, name, a)
+		if r == "notacquired" && time.Since(t0) < time.Duration(i64(a[2]))*time.Millisecond {
+			return "notacquired-early"
+		}
+		return r
+	}
+	doLock = func(m *member, path, name string, a []string) string {
 		key := string(unhx(a[0]))
 		timeout := time.Duration(i64(a[1])) * time.Millisecond
 		deadline := time.Duration(i64(a[2])) * time.Millisecond
@@ -866,9 +876,82 @@ func init() {
 		}
 		lockTokens = append(lockTokens, lockTok{lc: lc})
 		return "tok" + strconv.Itoa(len(lockTokens)-1)
+	}
+	register("c.lock", clusterOp(doLockTimed))
+	// c.lockw <path> <i> <dmap> <keyhex> <timeout_ms> <deadline_ms> <adv_ms>: a waiting Lock; 40 ms (real time)
+	// after it started the virtual clock advances by adv_ms
+	register("c.lockw", clusterOp(func(m *member, path, name string, a []string) string {
+		done := make(chan struct{})
+		go func() {
+			defer close(done)
+			time.Sleep(40 * time.Millisecond)
+			verifhook.SetClock(verifhook.Clock() + i64(a[3])*1000000)
+		}()
+		r := doLockTimed(m, path, name, a)
+		<-done
+		return r
 	}))
+	// c.lockrace <dmap> <keyhex> <clients> <iters>: real concurrency. Every client (spread over the members,
+	// embedded and cluster clients alternating) takes the lock without timeout, checks that it is alone in the
+	// critical section, and releases it.
+	register("c.lockrace", func(a []string) string {
+		key := string(unhx(a[1]))
+		n, iters := atoi(a[2]), atoi(a[3])
+		var inside, maxInside, acquired, failed int64
+		var mu sync.Mutex
+		var wg sync.WaitGroup
+		var firstErr string
+		for c := 0; c < n; c++ {
+			m := cl.members[c%len(cl.members)]
+			path := []string{"emb", "cli"}[(c/len(cl.members))%2]
+			d, err := cl.dmap(m, path, a[0])
+			if err != nil {
+				return errClass(err)
+			}
+			wg.Add(1)
+			go func() {
+				defer wg.Done()
+				for i := 0; i < iters; i++ {
+					ctx, cancel := context.WithTimeout(ctxBg, 20*time.Second)
+					lc, err := d.Lock(ctx, key, 10*time.Second)
+					if err != nil {
+						mu.Lock()
+						failed++
+						if firstErr == "" {
+							firstErr = errClass(err)
+						}
+						mu.Unlock()
+						cancel()
+						continue
+					}
+					mu.Lock()
+					inside++
+					acquired++
+					if inside > maxInside {
+						maxInside = inside
+					}
+					mu.Unlock()
+					time.Sleep(200 * time.Microsecond)
+					mu.Lock()
+					inside--
+					mu.Unlock()
+					if err = lc.Unlock(ctx); err != nil {
+						mu.Lock()
+						failed++
+						if firstErr == "" {
+							firstErr = "unlock:" + errClass(err)
+						}
+						mu.Unlock()
+					}
+					cancel()
+				}
+			}()
+		}
+		wg.Wait()
+		return fmt.Sprintf("acquired=%d failed=%d maxinside=%d err=%s", acquired, failed, maxInside, firstErr)
+	})
 	// unlock <path> <i> <dmap> <keyhex> <tokN|forged>
-	register("c.unlock", clusterOp(func(m *member, path, name string, a []string) string {
+	doUnlock := func(m *member, path, name string, a []string) string {
 		key := string(unhx(a[0]))
 		ctx, cancel := opCtx()
 		defer cancel()
@@ -880,8 +963,9 @@ func init() {
 			return errClass(t.lc.Unlock(ctx))
 		}
 		return errClass(cl.rawc(m).Do(ctx, "DM.UNLOCK", name, key, t.raw).Err())
-	}))
-	register("c.lease", clusterOp(func(m *member, path, name string, a []string) string {
+	}
+	register("c.unlock", clusterOp(doUnlock))
+	doLease := func(m *member, path, name string, a []string) string {
 		key := string(unhx(a[0]))
 		ms := i64(a[2])
 		ctx, cancel := opCtx()
@@ -894,7 +978,36 @@ func init() {
 			return errClass(t.lc.Lease(ctx, time.Duration(ms)*time.Millisecond))
 		}
 		return errClass(cl.rawc(m).Do(ctx, "DM.PLOCKLEASE", name, key, t.raw, ms).Err())
-	}))
+	}
+	register("c.lease", clusterOp(doLease))
+	// c.unlockx / c.leasex <path> <i> <dmap> <keyhex> <tok> [<ms>] -- <adv_ms> <path2> <i2> <timeout2_ms>
+	// Unlock / Lease with a competitor scheduled at the point between the token comparison and the
+	// delete / expiry update (verifhook.At("unlock.checked" / "lease.checked")): there the clock
+	// advances by adv_ms and a second client tries to take the lock (deadline 0: one attempt).
+	// Reply: "<result> inner=<tokN|notacquired|...|->"   ("-": the point was not reached)
+	interleaved := func(point string, op func(m *member, path, name string, a []string) string) handler {
+		return clusterOp(func(m *member, path, name string, a []string) string {
+			sep := 0
+			for i, x := range a {
+				if x == "--" {
+					sep = i
+				}
+			}
+			own, rest := a[:sep], a[sep+1:]
+			inner := "-"
+			verifhook.SetPoint(point, func() {
+				verifhook.SetPoint(point, nil)
+				verifhook.SetClock(verifhook.Clock() + i64(rest[0])*1000000)
+				m2 := cl.members[atoi(rest[2])]
+				inner = doLock(m2, rest[1], name, []string{own[0], rest[3], "0"})
+			})
+			r := op(m, path, name, own)
+			verifhook.SetPoint(point, nil)
+			return r + " inner=" + inner
+		})
+	}
+	register("c.unlockx", interleaved("unlock.checked", doUnlock))
+	register("c.leasex", interleaved("lease.checked", doLease))
 	register("c.destroy", clusterOp(func(m *member, path, name string, a []string) string {
 		ctx, cancel := opCtx()
 		defer cancel()
@@ -906,8 +1019,12 @@ func init() {
 			return errClass(err)
 		}
 		err = d.Destroy(ctx)
-		delete(m.dmaps, name)
-		delete(m.cdmaps, name)
+		// c.destroy ... fresh: the application drops its handles and asks for new ones afterwards;
+		// otherwise the long-lived handles stay in use (the DMap remains usable through them)
+		if len(a) > 0 && a[0] == "fresh" {
+			delete(m.dmaps, name)
+			delete(m.cdmaps, name)
+		}
 		return errClass(err)
 	}))
 	// scanall <path> <i> <dmap> [match regex] -> sorted keys yielded by the client iterator
